@@ -558,6 +558,15 @@ func (s *stepper) snapshot(st replay.Step, obs replay.Obs) replay.Obs {
 				"unrealisable: the replay stalled, an idle timer armed %s ago expired", since.Round(time.Millisecond))}
 		}
 	}
+	sock := s.sockState()
+	if want, _ := st.Exp["sock"].(string); want == "0600" && sock == "gone" && !s.returned.Load() {
+		// the listener has closed its socket; if that is a legitimate expiry after a stall
+		// the return follows at once — give it a moment so it is judged as such
+		for t0 := time.Now(); time.Since(t0) < 300*time.Millisecond && !s.returned.Load(); {
+			time.Sleep(time.Millisecond)
+		}
+		sock = s.sockState()
+	}
 	ret := s.returned.Load()
 	if ret && !expReturned {
 		verdict, why := s.judgeReturn()
@@ -583,7 +592,10 @@ func (s *stepper) snapshot(st replay.Step, obs replay.Obs) replay.Obs {
 	if ret && s.retErr != nil {
 		obs["__note__"] = fmt.Sprintf("listener returned error: %v", s.retErr)
 	}
-	obs["sock"] = s.sockState()
+	if ret {
+		sock = s.sockState()
+	}
+	obs["sock"] = sock
 	obs["in_call"] = in
 	obs["got"] = got
 	obs["parked_accept"] = acc
